@@ -28,7 +28,7 @@ Proof.
       split; [reflexivity|intros H; discriminate H].
 Qed.
 
-Lemma w_adm x : adm w_cfg [[x]].
+Lemma w_adm x : adm w_cfg (c_geom0 w_cfg) [[x]].
 Proof.
   intros _. cbn [All3 w_cfg c_vars c_geom0]. split; [|exact I].
   unfold adm_var, w_var; cbn [v_periodic v_gperiodic v_hard_lo v_hard_up].
@@ -36,13 +36,13 @@ Proof.
 Qed.
 
 Lemma w_example :
-  cfg_ok w_cfg /\ Forall (adm_event w_cfg) ([EStep w_i1] ++ [EStep w_i2]) /\
+  cfg_ok w_cfg /\ history_ok w_cfg ([EStep w_i1] ++ [EStep w_i2]) /\
   in_grid w_cfg (c_geom0 w_cfg) (i_x w_i1) = true /\ in_grid w_cfg (c_geom0 w_cfg) (i_x w_i2) = false /\
   eligible w_cfg w_i1 = true /\
   spec_run w_cfg ([EStep w_i1] ++ [EStep w_i2]) = mkS [mkHill 2%Z 1 [[3/2]]] [] (c_geom0 w_cfg).
 Proof.
   split; [exact w_cfg_ok|]. split.
-  { cbn [app]. apply Forall_cons; [exact (w_adm _)|apply Forall_cons; [exact (w_adm _)|apply Forall_nil]]. }
+  { apply plain_history_ok. cbn [app]. apply Forall_cons; [exact (w_adm _)|apply Forall_cons; [exact (w_adm _)|apply Forall_nil]]. }
   split; [|split; [|split; reflexivity]].
   - unfold in_grid, gbins, w_cfg, w_i1, w_var.
     cbn [c_use_grids c_geom0 c_vars i_x cbins wrapix gsizes map b_nx b_lower v_width v_gperiodic andb sc].
@@ -77,7 +77,7 @@ Proof.
       * split; [reflexivity|intros H; discriminate H].
 Qed.
 
-Lemma x_adm a b : adm x_cfg [[a]; [b]].
+Lemma x_adm a b : adm x_cfg (c_geom0 x_cfg) [[a]; [b]].
 Proof.
   intros _. cbn [All3 x_cfg c_vars c_geom0]. unfold adm_var, x_varA, x_varB.
   cbn [v_periodic v_gperiodic v_hard_lo v_hard_up].
@@ -87,11 +87,13 @@ Proof.
 Qed.
 
 Lemma x_example :
-  cfg_ok x_cfg /\ Forall (adm_event x_cfg) [EStep x_i1; ESave; EStep x_i2] /\
+  cfg_ok x_cfg /\ history_ok x_cfg [EStep x_i1; ESave; EStep x_i2; ERestart None; EStep x_i2] /\
   c_wt x_cfg = true /\ existsb (@v_expand R) (c_vars x_cfg) = true /\ existsb (@v_gperiodic R) (c_vars x_cfg) = true.
 Proof.
   split; [exact x_cfg_ok|]. split; [|repeat split; reflexivity].
-  apply Forall_cons; [exact (x_adm _ _)|]. apply Forall_cons; [exact I|]. apply Forall_cons; [exact (x_adm _ _)|apply Forall_nil].
+  apply plain_history_ok.
+  apply Forall_cons; [exact (x_adm _ _)|]. apply Forall_cons; [exact I|]. apply Forall_cons; [exact (x_adm _ _)|].
+  apply Forall_cons; [exact I|]. apply Forall_cons; [exact (x_adm _ _)|apply Forall_nil].
 Qed.
 
 (* without grids: a 3-vector and a unit-vector variable *)
@@ -112,9 +114,41 @@ Proof.
 Qed.
 
 Lemma v_example :
-  cfg_ok v_cfg /\ Forall (adm_event v_cfg) [EStep v_i1; EStep v_i2] /\ c_use_grids v_cfg = false /\
+  cfg_ok v_cfg /\ history_ok v_cfg [EStep v_i1; ERestart None; EStep v_i2] /\ c_use_grids v_cfg = false /\
   map (@v_kind R) (c_vars v_cfg) = [KVec3; KUnit3] /\ eligible v_cfg v_i1 = true.
 Proof.
   split; [exact v_cfg_ok|]. split; [|repeat split; reflexivity].
-  apply Forall_cons; [intros H; discriminate H|]. apply Forall_cons; [intros H; discriminate H|apply Forall_nil].
+  apply plain_history_ok.
+  apply Forall_cons; [intros H; discriminate H|]. apply Forall_cons; [exact I|].
+  apply Forall_cons; [intros H; discriminate H|apply Forall_nil].
+Qed.
+
+(* keepHills and a restart with rebinGrids onto the larger grid [-2,10) *)
+Definition r_cfg : cfgR := mkCfg [w_var] [mkBound 0 8 8%Z] 1 2 2%Z 2%Z true true false 1 1 false.
+Definition r_g : list boundR := [mkBound (-2) 10 12%Z].
+
+Lemma r_cfg_ok : cfg_ok r_cfg.
+Proof. exact w_cfg_ok. Qed.
+
+Lemma r_example :
+  cfg_ok r_cfg /\ history_ok r_cfg [EStep w_i1; ERestart (Some r_g); EStep w_i2] /\
+  spec_run r_cfg [EStep w_i1; ERestart (Some r_g); EStep w_i2] = mkS [mkHill 2%Z 1 [[3/2]]] [] r_g /\
+  in_grid r_cfg r_g (i_x w_i2) = true.
+Proof.
+  split; [exact r_cfg_ok|]. split; [|split; [reflexivity|]].
+  - unfold history_ok. cbn [hist_ok]. split; [exact (w_adm _)|]. split; [|split; [|exact I]].
+    + intros _. split; [reflexivity|]. split.
+      * cbn [All2 r_cfg r_g c_vars]. split; [|exact I]. unfold bound_ok, w_var.
+        cbn [b_upper b_lower b_nx v_width]. split; [simpl; lra|lia].
+      * assert (Hs : s_all (spec_event r_cfg (mkS [] [] (c_geom0 r_cfg)) (EStep w_i1)) = [mkHill 2%Z 1 [[3/2]]])
+          by reflexivity.
+        rewrite Hs. intros h [<-|[]]. cbn [All3 r_cfg r_g c_vars h_c]. split; [|exact I].
+        unfold clear_var, w_var. cbn [v_expand]. intros H. discriminate H.
+    + intros _. cbn [next_base r_cfg c_use_grids All3 r_g c_vars i_x w_i2]. split; [|exact I].
+      unfold adm_var, w_var; cbn [v_periodic v_gperiodic v_hard_lo v_hard_up].
+      split; [intros H; discriminate H|split; intros H; discriminate H].
+  - unfold in_grid, gbins, r_cfg, r_g, w_i2, w_var.
+    cbn [c_use_grids c_vars i_x cbins wrapix gsizes map b_nx b_lower v_width v_gperiodic andb sc].
+    unfold value_to_bin. cbn [nfloor ndiv nsub Rops].
+    rewrite (Zfloor_val _ 1%Z) by (simpl; lra). reflexivity.
 Qed.
